@@ -137,6 +137,8 @@ type HistoryConfig struct {
 	// Between, if set, is invoked between ABCI calls of test replicas.
 	Between func(r *Replica)
 	Dir     string
+	// FaultRead: the first two test replicas (on disk, same backend) are read-fault twins, see readfault.go.
+	FaultRead bool
 }
 
 // DebugTamper prints details of tampered proposals (development aid).
@@ -186,6 +188,11 @@ type History struct {
 	OwnAbandoned     int
 	EpochTransitions int
 	lastEpoch        uint64
+
+	// Read-fault twins (readfault.go).
+	ReadFault         ReadFaultStats
+	ReadFaultFindings []*ReadFaultFinding
+	ReadFaultSilent   []map[string]any
 }
 
 // tapOwner maps application states to histories (taps are process-global).
@@ -535,8 +542,22 @@ func (h *History) Step() bool {
 		return false
 	}
 
+	// Read-fault twins.
+	faultTwins := h.Cfg.FaultRead && len(h.Tests) >= 2 && !h.ReadFault.Dead
+	if faultTwins && height > h.Sc.Doc.Height && h.Rng.IntN(2) == 0 {
+		if !h.stepReadFault(b, gtxs, ref) {
+			return false
+		}
+		faultTwins = true
+	} else {
+		faultTwins = false
+	}
+
 	// Test replicas.
 	for i, r := range h.Tests {
+		if h.Cfg.FaultRead && i < 2 && (faultTwins || h.ReadFault.Dead) {
+			continue // executed by stepReadFault / diverged silently and left alone
+		}
 		path := paths[i]
 		h.PathUsed[path]++
 		var res *BlockResult
